@@ -254,7 +254,11 @@ impl BitFont {
         }
         let height = u32::from_le_bytes(data[24..28].try_into().unwrap()) as usize;
         let width = u32::from_le_bytes(data[28..32].try_into().unwrap()) as usize;
-        if height == 0 || width == 0 {
+        // a glyph of `charsize` bytes cannot have more rows than bytes; the width is only held to a sanity limit (the engine itself
+        // writes fonts wider than 8 pixels with one byte per row): 0x7fffffff or 0xffffffff in either field is not a font and would
+        // overflow the cell arithmetic of the renderer
+        const MAX_GLYPH_WIDTH: usize = 256;
+        if height == 0 || width == 0 || height > charsize.max(0) as usize || width > MAX_GLYPH_WIDTH {
             return Err(FontError::UnknownFontFormat(data.len()).into());
         }
 
